@@ -3,7 +3,7 @@
 PROP=$1; PATCH=$(readlink -f "$2")
 s=$(mktemp -d /tmp/trycanary.XXXXXX); mkdir -p $s/repo $s/verif
 rsync -a --exclude .git /repo/ $s/repo/
-cp /verif/known_findings.json /verif/anchors.json $s/verif/
+cp /verif/known_findings.json /verif/anchors.json /verif/fields.json $s/verif/
 (cd $s/repo && patch -p1 -s -f < "$PATCH") || echo "PATCH FAILED"
 /verif/bin/ndndcheck -prop $PROP -tier quick -repo $s/repo -verif $s/verif
 rm -rf $s
